@@ -212,7 +212,7 @@ def compare_with_rebuilt(s, m, ops, seed, props):
             t1, k1 = table_rows(df); t2, k2 = table_rows(df2)
             if k1 != k2 or set(t1) != set(t2): fail("edited.shape", "edited and rebuilt systems list different rows/columns: %s" % sorted(set(t1) ^ set(t2))[:4]); break
             for kk in t1:
-                d = [(c, a, b) for c, a, b in zip(k1, t1[kk], t2[kk]) if a != b and not (isinstance(a, float) and isinstance(b, float) and oracle.close(a, b, 1e-6, 1e-9))]
+                d = [(c, a, b) for c, a, b in zip(k1, t1[kk], t2[kk]) if a != b and not (isinstance(a, float) and isinstance(b, float) and oracle.close(a, b, 5e-5, 1e-9))]
                 if d: fail("edited.values", "row %s: edited %s" % (kk, d[:3])); break
         for nm, f1, f2 in (("params", lambda: s.params(limits=True), lambda: s2.params(limits=True)), ("phases", lambda: s.phases(), lambda: s2.phases())):
             a, b = f1(), f2()
